@@ -175,7 +175,7 @@ Proof. unfold cap_now. destruct a1; intros H; inversion H; lia. Qed.
 
 (* one received packet from a rest point: afterwards every owed packet is among the ranges the cap keeps, and if
    MAX_ACK_RANGES ranges or more are queued the pending ACK is due now *)
-Lemma recv_from_rest dmax a s pn e t d dl ok : CAP_ACK_NOW = true -> Inv s -> TInv dmax a s -> Rest s ->
+Lemma recv_from_rest0 dmax a s pn e t d dl ok : CAP_ACK_NOW = true -> Inv0 s -> TInv dmax a s -> Rest s ->
   wf_op_d dmax s (Recv pn e t d dl ok) ->
   let s1 := snd (step s (Recv pn e t d dl ok)) in
   Cov s1 /\ (closing s1 = false -> disc s1 = false -> owed s1 <> [] -> MAX_ACK_RANGES <= Zlen (aq s1) ->
@@ -184,8 +184,8 @@ Lemma recv_from_rest dmax a s pn e t d dl ok : CAP_ACK_NOW = true -> Inv s -> TI
   (closing s1 = false -> disc s1 = false -> owed s = [] -> forall o, In o (owed s1) -> lrp s < fst o /\ mem (fst o) (aq s1) /\
      forall y, mem y (aq s1) -> y <= fst o).
 Proof.
-  intros Hf II T R Hw. pose proof II as [I Ne]. cbv zeta. cbn [step].
-  destruct (recv_never_raises s pn e t d dl ok II (proj1 Hw)) as [s1 E]. rewrite E. cbn [snd].
+  intros Hf I T R Hw. cbv zeta. cbn [step].
+  destruct (recv_never_raises0 s pn e t d dl ok I (proj1 Hw)) as [s1 E]. rewrite E. cbn [snd].
   unfold recv in E. destruct (delivers (aq s) dl) as [q|] eqn:Ed; [|discriminate]. cbn in E. inversion E; subst s1; clear E.
   destruct (delivers_spec _ _ _ (i_wf _ I) Ed) as (Wq & Sub & _).
   assert (Hn : forall x, mem x (aq s) -> 0 <= x).
@@ -220,7 +220,7 @@ Proof.
     + assert (Hz : Zlen (add pn (pn + 1) q) <= MAX_ACK_RANGES).
       { assert (Zlen (aq s) <= MAX_ACK_RANGES - 1) by (apply R; auto; rewrite Eo; discriminate). lia. }
       destruct (cap_ranges_spec _ Wa) as (_ & _ & _ & _ & Eq). rewrite (Eq Hz).
-      pose proof (fun s' => tinv_recv dmax a s pn e t d dl ok s' II T (wf_d_t_nonsend _ _ _ Hw ltac:(intros; discriminate))) as T1.
+      pose proof (fun s' => tinv_recv0 dmax a s pn e t d dl ok s' I T (wf_d_t_nonsend _ _ _ Hw ltac:(intros; discriminate))) as T1.
       unfold recv in T1. rewrite Ed in T1. cbn [bind] in T1. rewrite K in T1. specialize (T1 _ eq_refl).
       unfold record in T1. cbn [disc set_clk set_aq] in T1. rewrite D in T1.
       destruct (t_owed _ _ _ T1 C eq_refl L t0) as (M & _); auto. cbn [owed set_clk set_aq lrp app complete]. rewrite Eo. exact Hin.
@@ -230,6 +230,16 @@ Proof.
     destruct (e && (pn >? lrp s) && (negb (app s) || complete s)) eqn:Cond; [|destruct Hin].
     destruct Hin as [<-|[]]. cbn [fst]. apply New. reflexivity.
 Qed.
+
+Lemma recv_from_rest dmax a s pn e t d dl ok : CAP_ACK_NOW = true -> Inv s -> TInv dmax a s -> Rest s ->
+  wf_op_d dmax s (Recv pn e t d dl ok) ->
+  let s1 := snd (step s (Recv pn e t d dl ok)) in
+  Cov s1 /\ (closing s1 = false -> disc s1 = false -> owed s1 <> [] -> MAX_ACK_RANGES <= Zlen (aq s1) ->
+             forall x, ack_at s1 = Some x -> x <= clk s1) /\ clk s1 = t /\
+  (closing s1 = false -> disc s1 = false -> owed s <> [] -> Zlen (aq s1) <= MAX_ACK_RANGES) /\
+  (closing s1 = false -> disc s1 = false -> owed s = [] -> forall o, In o (owed s1) -> lrp s < fst o /\ mem (fst o) (aq s1) /\
+     forall y, mem y (aq s1) -> y <= fst o).
+Proof. intros Hf [I _]. apply recv_from_rest0; auto. Qed.
 
 Record DInv (dmax : Z) (a : bool) (s : space) : Prop := mkDInv { d_inv : Inv s; d_tinv : TInv dmax a s; d_rest : Rest s }.
 
